@@ -154,6 +154,7 @@ class Check:
         "Msm": {"C02", "C10", "C20"},
         "Iso": {"C16", "C14", "C06"},
         "Hash": {"C13", "C06"},
+        "Rest": {"C01", "C07", "C18", "C05"},
     }
     ARITH_ALL = {"C01", "C02", "C03", "C04", "C05", "C06", "C07", "C09", "C11", "C12", "C14", "C15", "C17", "C18"}
 
@@ -250,6 +251,19 @@ class Check:
         return {"C02"}
 
     @staticmethod
+    def rest_props(name):
+        n = name.lower()
+        if "batch" in n or "normaliz" in n:
+            return {"C01", "C07"}
+        if "random" in n or "cofactor" in n or "subgroup" in n or "oncurve" in n:
+            return {"C07"}
+        if "ord" in n or "cmp" in n or "sgn" in n or "signum" in n:
+            return {"C18"}
+        if "compress" in n:
+            return {"C05", "C04"}
+        return {"C01", "C07"}
+
+    @staticmethod
     def hash_props(name):
         n = name.lower()
         if "tocurve" in n or "to_curve" in n:
@@ -273,6 +287,7 @@ class Check:
         self._translated("PP.Props.GenMsm", "GenMsm.lean", self.msm_props, {"C02", "C10", "C20"}, "lake_genmsm_s")
         self._translated("PP.Props.GenIso", "GenIso.lean", lambda n: {"C16", "C14", "C06"}, {"C16", "C14", "C06"}, "lake_geniso_s")
         self._translated("PP.Props.GenHash", "GenHash.lean", self.hash_props, {"C13", "C06"}, "lake_genhash_s")
+        self._translated("PP.Props.GenRest", "GenRest.lean", self.rest_props, {"C01", "C07", "C18", "C05", "C04"}, "lake_genrest_s")
 
     def _translated(self, mod, proofs_file, props_of, all_props, tkey):
         if self.pid not in all_props:
